@@ -40,7 +40,7 @@ TableClauses(what) ==
     \o Fail(e.shown = e.models, "C14.group_models_do_not_mirror_df_features_after_" \o what)
     \o Fail(e.sigs_ok, "C14.group_models_do_not_mirror_sigs_after_" \o what)
     \o Fail(e.look_ok, "C14.group_len_iteration_indexing_disagree_with_models_after_" \o what)
-Step ==
+TStep ==
   /\ l <= Len(c)
   /\ CASE e.a = "New"       -> GNew(e.tk) /\ fails' = fails \o HeapClause \o Fail(e.raised = "", "C14.group_constructor_raised")
        [] e.a = "SetThr"    -> GSetThr(e.tk) /\ fails' = fails \o HeapClause \o Fail(e.raised = "", "C14.group_attribute_assignment_raised")
@@ -58,7 +58,7 @@ Finish == /\ l = Len(c) + 1
           /\ PrintT(<<"VERDICT", tid, fails>>)
           /\ l' = l + 1
           /\ UNCHANGED <<vars, tid, fails>>
-TNext == Step \/ Finish
+TNext == TStep \/ Finish
 TSpec == TInit /\ [][TNext]_tvars
 \* the GroupSession invariants are evaluated in every state of every replayed behaviour
 THeapIsIntent == HeapIsIntent
